@@ -73,7 +73,7 @@ CFG = {
                                  "C16_fields_roundtrip", "C16_float_cell_text", "fmtFloat_solid", "strOf_render", "rowFields_val",
                                  "Layout.C16_shx_invariant", "Layout.C16_shx_entries", "Layout.C16_stepMin", "Layout.C16_stepMax", "Layout.C16_box_polyline", "Layout.C16_record_box", "Layout.C16_box_multipoint", "Layout.C16_box_multipoint_minX", "Layout.C16_header_box", "Layout.C16_header_box_minX",
                                  "C16_float_cert", "C16_float_cert_rne", "C16_float_text", "C16_float_universal", "C16_float_nonfinite", "C16_floatCellCert_all", "C16_floatFmt_instance", "C16_float_unconditional", "C16_struct_roundtrip_float",
-                                 "C16_struct_file_roundtrip", "C16_callOK_written", "C16_match_any", "Matches_self", "C16_struct_roundtrip_matched", "reparse_close", "Layout.C16_struct_bytes_roundtrip", "C16_schedule_written", "C16_mixed_file_roundtrip", "writeLenient_eq_strict",
+                                 "C16_struct_file_roundtrip", "C16_callOK_written", "C16_match_any", "Matches_self", "C16_struct_roundtrip_matched", "reparse_close", "Layout.C16_struct_bytes_roundtrip", "Layout.C16_written_bytes_schedule", "C16_schedule_written", "C16_mixed_file_roundtrip", "writeLenient_eq_strict",
                                  "Wrap.createW_none_iff", "Wrap.createW_within", "Wrap.encodeFieldsW_within", "Wrap.runW_within", "Wrap.encodeFieldsW_panics", "Wrap.cellOffW_nonneg", "Wrap.readAttributeW_within", "Wrap.wrap_regimes",
                                  "GenStr.tie_shpFieldName2String", "GenStr.tie_shpAttributeToFloat", "GenStr.tie_shpAttributeToInt", "GenStr.tie_numText",
                                  "Gen.tie_widths", "Gen.tie_columns", "Gen.tie_lookup", "Gen.tie_cuts", "Gen.tie_write_order"]],
